@@ -204,7 +204,7 @@ def main(ck):
         else:
           xg = lib.mju_rayGeom(np.ascontiguousarray(d.geom_xpos[g]), np.ascontiguousarray(d.geom_xmat[g]),
                                np.ascontiguousarray(m.geom_size[g]), pnt, vec, gtype[g], nrm)
-        compare_one(xg, nrm, orc[g], shapes[g], pnt, vec, tolx, 'geom %d (%s)' % (g, shapes[g].typ), desc, worst)
+        compare_one(xg, nrm, orc[g], shapes[g], pnt, vec, tolx, 'geom %d (%s)' % (g, shapes[g].typ), desc, worst, info)
       # ---- mj_ray with filters
       gidbuf = np.zeros(1, dtype=np.int32)
       nrm = np.zeros(3)
@@ -220,6 +220,9 @@ def main(ck):
           raise Violation('mj_ray returned -1 but geomid %d normal %s%s' % (gid, nrm, desc()), bucket='none-outputs')
         if robust:
           g0, o0 = min(robust, key=lambda t: t[1]['x'])
+          if flat_face(o0, shapes[g0]):
+            finding('raymesh-flat-leaf', FLAT + 'mj_ray returned -1, geom %d hit at %.17g%s' % (g0, o0['x'], desc()), info)
+            continue
           raise Violation('mj_ray returned -1 but geom %d (%s) is hit at x=%.17g%s' % (g0, shapes[g0].typ, o0['x'], desc()),
                           bucket='missed-hit')
       else:
@@ -231,12 +234,14 @@ def main(ck):
           if og is None:
             raise Violation('mj_ray hit geom %d (%s) at %.17g; the reference finds no intersection%s' % (
                 gid, shapes[gid].typ, x, desc()), bucket='phantom-hit')
-        elif abs(og['x'] - x) > tolx and not og['fragile']:
+        elif abs(og['x'] - x) > tolx and not og['fragile'] and not (flat_face(og, shapes[gid]) and x > og['x']):
           raise Violation('mj_ray x=%.17g on geom %d (%s), reference %.17g%s' % (x, gid, shapes[gid].typ, og['x'], desc()),
                           bucket='distance')
         if robust:
           g0, o0 = min(robust, key=lambda t: t[1]['x'])
-          if x > o0['x'] + tolx:
+          if x > o0['x'] + tolx and flat_face(o0, shapes[g0]):
+            finding('raymesh-flat-leaf', FLAT + 'mj_ray x=%.17g, geom %d hit at %.17g%s' % (x, g0, o0['x'], desc()), info)
+          elif x > o0['x'] + tolx:
             raise Violation('mj_ray returned x=%.17g (geom %d) but geom %d (%s) is hit earlier at %.17g%s' % (
                 x, gid, g0, shapes[g0].typ, o0['x'], desc()), bucket='not-nearest')
         if allx:
@@ -339,20 +344,15 @@ def main(ck):
         if not ok:
           msg = ('mj_multiRay ray %d: dist %.17g geom %d, but the geoms passing the filters give nearest %.17g (all within '
                  'reach) / %.17g (entirely within cutoff)%s' % (i, got, gg_, a, b, desc()))
-          # known defect: body bounding sphere centre = xipos + (unrotated) AABB centre. It can only strike when a
-          # body carrying a candidate geom has an off-centre AABB and a rotated inertial frame.
-          culprit = False
-          for g in allowed:
-            bid = bodyid[g]
-            adr = int(m.body_bvhadr[bid])
-            if adr >= 0:
-              c = np.array(m.bvh_aabb[adr][:3])
-              R = np.array(d.ximat[bid]).reshape(3, 3)
-              if np.linalg.norm(R @ c - c) > 1e-9 * L:
-                culprit = True
-          if culprit and (got < 0 or got > a):
-            finding('multiray-cull', 'mj_multiRay misses surfaces that mj_ray hits: mju_singleRay body bounding-sphere pre-test '
-                    'adds the un-rotated AABB centre to xipos -- ' + msg, info)
+          # a candidate geom that is not part of its body's collision BVH (contype=conaffinity=0) while the body has a
+          # BVH built from its other geoms: mju_singleRay culls the whole body with the BVH root bounding sphere
+          missed = [g for g, xg in allowed.items() if xg == a] if a >= 0 else []
+          nobvh = [g for g in missed if int(m.geom_contype[g]) == 0 and int(m.geom_conaffinity[g]) == 0 and
+                   int(m.body_bvhadr[bodyid[g]]) >= 0]
+          if nobvh and (got < 0 or got > a):
+            finding('multiray-visual-geom-culled', 'mj_multiRay misses a visual-only geom (contype=conaffinity=0) that mj_ray '
+                    'hits: mju_singleRay pre-tests the body with the bounding sphere of its collision BVH root, which '
+                    'does not contain non-colliding geoms -- ' + msg, info)
           else:
             raise Violation(msg, bucket='multiray')
         if gg_ == -1 and got >= 0 or (got < 0 and (gg_ != -1 or np.any(nrms[i] != 0))):
@@ -372,8 +372,22 @@ def main(ck):
     except mj.MjError:
       pass
 
-  def compare_one(xg, nrm, o, shape, pnt, vec, tolx, what, desc, worst):
+  def flat_face(o, shape):
+    """reference hit on an axis-aligned mesh triangle (its BVH leaf box is flat)"""
+    if o is None or o.get('x') is None or shape.typ != 'mesh':
+      return False
+    nl = shape.mat.T @ o['normal']
+    return float(np.max(np.abs(nl))) > 1 - 1e-9
+
+  FLAT = ('mj_rayMesh misses axis-aligned mesh faces (returns -1 or a farther face) when the hit parameter x is large (>~ 50): '
+          'the BVH leaf box of such a face has thickness ~2e-14 and mju_raySlab requires tmin < tmax strictly, which rounding '
+          'turns into tmin == tmax -- ')
+
+  def compare_one(xg, nrm, o, shape, pnt, vec, tolx, what, desc, worst, info=None):
     """Per-geom function against the reference."""
+    if flat_face(o, shape) and not o['fragile'] and (xg < 0 or xg > o['x'] + tolx):
+      finding('raymesh-flat-leaf', FLAT + '%s: engine x=%.17g, reference %.17g%s' % (what, xg, o['x'], desc()), info or {})
+      return
     if o is None:
       if xg >= 0:
         raise Violation('%s: engine x=%.17g, reference: no intersection%s' % (what, xg, desc()), bucket='geom-phantom')
